@@ -243,17 +243,17 @@ def execute(trace, ctx):
                 elif kind in ("move", "move_axis"):
                     kind = "move"
                     d = np.array(op["d"])
-                    o["obj"].move(d)
+                    o["obj"].move(d if op["pick"] % 3 else (list(op["d"]) if op["pick"] % 2 else tuple(op["d"])))
                     new = old + d
                     want_centre = centre + d
                 elif kind == "move_to":
                     p = np.array(op["p"])
-                    o["obj"].move_to(p)
+                    o["obj"].move_to(p if op["pick"] % 3 else list(op["p"]))
                     new = old + (p - centre)
                     want_centre = p
                 else:
                     R = np.array(op["R"])
-                    o["obj"].rotate(R)
+                    o["obj"].rotate(R if op["pick"] % 3 else [list(row) for row in op["R"]])
                     new = (old - centre) @ R.T + centre
                     want_centre = centre
                 exp = {c: {"pos": new[j]} for j, c in enumerate(o["cells"])}
